@@ -1,16 +1,389 @@
-//! Suite C14 (stub — replaced when the property's harness is built).
-#![allow(dead_code, unused_imports)]
+//! C14: `LoRa<RK, DLY>` (lora-phy/src/lib.rs) of the real crate over the fake chips: sequences of API
+//! calls, each with its own chip interrupt outcomes, an I/O fault at a chosen step, or a future
+//! dropped at a pending `await_irq`; compared call by call (result, I/O transcript, `verif_state()`)
+//! with the Lean model, which also evaluates the invariants I1-I5 on the run.
+//!
+//!   C14 seq        <chip> ; <call>@<irq words|->@<fault|->@<pend|-> ; …     verbose answer
+//!   C14 seq_digest <chip> ; …                                                 transcripts hashed
+//! calls: init  sleep:<0|1>  ptx  tx  prx:<s|c|d>  srx  crx  rx  rsc  listen  pcad  cad  sync:<word>
+//! (fixed parameters: SF7/125 kHz/4_5 at 868.1 MHz, 14 dBm, payload 010203, RX buffer 255 bytes,
+//!  Single(13 symbols) / Continuous / DutyCycle(1000, 2000), rx_switch_channel to 868.3 MHz)
+//! The scenario starts after `LoRa::new(radio_kind, true, delay)` (which runs `init`).
+use crate::c13::{is_126, parse_chip, ChipCfg, Variant};
+use crate::fakechip::*;
 use crate::util::*;
+use lora_modulation::{Bandwidth, CodingRate, SpreadingFactor};
+use lora_phy::mod_params::{DutyCycleParams, RadioError, RadioMode};
+use lora_phy::mod_traits::RadioKind;
+use lora_phy::{sx126x, LoRa, RxMode};
+use std::panic::AssertUnwindSafe;
 
-pub fn eval(_op: &str) -> String {
-    "bad-op".into()
+const FREQ: u32 = 868_100_000;
+const FREQ2: u32 = 868_300_000;
+
+fn show_mode(m: RadioMode) -> String {
+    match m {
+        RadioMode::Sleep => "Sleep".into(),
+        RadioMode::Standby => "Standby".into(),
+        RadioMode::FrequencySynthesis => "FrequencySynthesis".into(),
+        RadioMode::Transmit => "Transmit".into(),
+        RadioMode::Listen => "Listen".into(),
+        RadioMode::ChannelActivityDetection => "ChannelActivityDetection".into(),
+        RadioMode::Receive(RxMode::Single(n)) => format!("Receive(Single({}))", n),
+        RadioMode::Receive(RxMode::Continuous) => "Receive(Continuous)".into(),
+        RadioMode::Receive(RxMode::DutyCycle(d)) => format!("Receive(DutyCycle({},{}))", d.rx_time, d.sleep_time),
+    }
 }
 
-pub fn expand(_op: &str) -> Vec<String> {
-    vec![]
+fn show_err(e: &RadioError) -> String {
+    format!("err:{:?}", e).replace(' ', "")
 }
 
-pub fn run(_tier: &str, _seed: u64, dir: &str) {
-    let sink = Sink::new(dir);
-    sink.finish(dir, "stub", false, serde_json::json!({}));
+fn fnv_str(s: &str) -> String {
+    let mut h = Fnv::new();
+    for b in s.bytes() {
+        h.byte(b);
+    }
+    format!("{:016x}", h.0)
+}
+
+struct CallSpec<'a> {
+    call: &'a str,
+    irq: Vec<u16>,
+    fault: Option<usize>,
+    pend: Option<usize>,
+}
+
+fn parse_call(tok: &str) -> Option<CallSpec<'_>> {
+    let p: Vec<&str> = tok.split('@').collect();
+    if p.len() != 4 {
+        return None;
+    }
+    let irq = if p[1] == "-" { vec![] } else { p[1].split(',').map(|x| x.parse::<u16>().ok()).collect::<Option<Vec<_>>>()? };
+    let fault = if p[2] == "-" { None } else { Some(p[2].parse().ok()?) };
+    let pend = if p[3] == "-" { None } else { Some(p[3].parse().ok()?) };
+    Some(CallSpec { call: p[0], irq, fault, pend })
+}
+
+pub struct CallObs {
+    pub line: String,
+    pub steps: usize,
+    pub irq_positions: Vec<usize>,
+    pub irq_reads: usize,
+    pub stop: bool,
+}
+
+/// run the calls on one driver instance; returns one observation per call executed
+fn drive<RK: RadioKind>(rk: RK, w: &Shared, calls: &[CallSpec<'_>], digest: bool) -> Option<Vec<CallObs>> {
+    let mut lora = match block_on(LoRa::new(rk, true, FakeDelay(w.clone()))) {
+        Ok(l) => l,
+        Err(_) => return None,
+    };
+    let mdl = lora
+        .create_modulation_params(SpreadingFactor::_7, Bandwidth::_125KHz, CodingRate::_4_5, FREQ)
+        .ok()?;
+    let mut tx_pkt = lora.create_tx_packet_params(8, false, true, false, &mdl).ok()?;
+    let rx_pkt = lora.create_rx_packet_params(8, false, 255, true, true, &mdl).ok()?;
+    let mut out = vec![];
+    for c in calls {
+        {
+            let mut m = w.borrow_mut();
+            m.log.clear();
+            m.step = 0;
+            m.fault = c.fault;
+            m.pend_at = c.pend;
+            m.irq_script = c.irq.iter().copied().collect();
+            m.irq_reads = 0;
+        }
+        let mut buf = [0u8; 255];
+        let parts: Vec<&str> = c.call.split(':').collect();
+        let res: Option<Option<String>> = guarded(AssertUnwindSafe(|| {
+            let unit = |r: Option<Result<(), RadioError>>| -> String {
+                match r {
+                    None => "DROPPED".into(),
+                    Some(Ok(())) => "ok".into(),
+                    Some(Err(e)) => show_err(&e),
+                }
+            };
+            Some(match parts.as_slice() {
+                ["init"] => unit(block_on_or_drop(lora.init())),
+                ["sleep", wm] => unit(block_on_or_drop(lora.sleep(*wm == "1"))),
+                ["ptx"] => unit(block_on_or_drop(lora.prepare_for_tx(&mdl, &mut tx_pkt, 14, &[1, 2, 3]))),
+                ["tx"] => unit(block_on_or_drop(lora.tx())),
+                ["prx", k] => {
+                    let mode = match *k {
+                        "s" => RxMode::Single(13),
+                        "c" => RxMode::Continuous,
+                        "d" => RxMode::DutyCycle(DutyCycleParams { rx_time: 1000, sleep_time: 2000 }),
+                        _ => return None,
+                    };
+                    unit(block_on_or_drop(lora.prepare_for_rx(mode, &mdl, &rx_pkt)))
+                }
+                ["srx"] => unit(block_on_or_drop(lora.start_rx())),
+                ["crx"] | ["rx"] => {
+                    let r = if parts[0] == "crx" {
+                        block_on_or_drop(lora.complete_rx(&rx_pkt, &mut buf))
+                    } else {
+                        block_on_or_drop(lora.rx(&rx_pkt, &mut buf))
+                    };
+                    match r {
+                        None => "DROPPED".into(),
+                        Some(Ok((n, _st))) => format!("ok:rx({},{})", n, hex(&buf[..n as usize])),
+                        Some(Err(e)) => show_err(&e),
+                    }
+                }
+                ["rsc"] => unit(block_on_or_drop(lora.rx_switch_channel(FREQ2))),
+                ["listen"] => unit(block_on_or_drop(lora.listen(FREQ, Bandwidth::_125KHz))),
+                ["pcad"] => unit(block_on_or_drop(lora.prepare_for_cad(&mdl))),
+                ["cad"] => match block_on_or_drop(lora.cad(&mdl)) {
+                    None => "DROPPED".into(),
+                    Some(Ok(b)) => format!("ok:cad({})", b as u8),
+                    Some(Err(e)) => show_err(&e),
+                },
+                ["sync", wd] => unit(block_on_or_drop(lora.set_lora_sync_word(wd.parse().ok()?))),
+                _ => return None,
+            })
+        }));
+        let (res_s, stop) = match res {
+            None => ("PANIC".to_string(), true),
+            Some(None) => return None,
+            Some(Some(s)) => (s, false),
+        };
+        let m = w.borrow();
+        let tr = m.transcript();
+        let (mode, cold, cal) = lora.verif_state();
+        let irq_positions: Vec<usize> = {
+            // step index of every await_irq (delays are logged but are not steps)
+            let mut v = vec![];
+            let mut step = 0usize;
+            for t in &m.log {
+                if t.starts_with('D') {
+                    continue;
+                }
+                if t.starts_with('I') {
+                    v.push(step);
+                }
+                step += 1;
+            }
+            v
+        };
+        out.push(CallObs {
+            line: format!("{} {} {},{},{}", res_s, if digest { fnv_str(&tr) } else { tr }, show_mode(mode), cold, cal),
+            steps: m.step,
+            irq_positions,
+            irq_reads: m.irq_reads,
+            stop,
+        });
+        if stop {
+            break;
+        }
+    }
+    Some(out)
+}
+
+fn irq_default(cfg: &ChipCfg) -> u16 {
+    if is_126(cfg.variant) {
+        0x0283
+    } else {
+        0x4c
+    }
+}
+
+fn run_seq(chip: &str, calls: &[&str], digest: bool) -> Option<Vec<CallObs>> {
+    let cfg = parse_chip(chip)?;
+    let specs: Vec<CallSpec<'_>> = calls.iter().map(|c| parse_call(c)).collect::<Option<Vec<_>>>()?;
+    // the retention list of a chip that has just been reset is empty (register 0x029F = 0)
+    let w = crate::c13::make_world(&cfg, 1, if is_126(cfg.variant) { "29f=00" } else { "-" })?;
+    w.borrow_mut().irq_default = irq_default(&cfg);
+    let tcxo = |k: u8| {
+        use sx126x::TcxoCtrlVoltage::*;
+        [Ctrl1V6, Ctrl1V7, Ctrl1V8, Ctrl2V2, Ctrl2V4, Ctrl2V7, Ctrl3V0, Ctrl3V3][k as usize & 7]
+    };
+    macro_rules! with126 {
+        ($chip:expr) => {{
+            let rk = sx126x::Sx126x::new(
+                FakeSpi(w.clone()),
+                FakeIv(w.clone()),
+                sx126x::Config { chip: $chip, tcxo_ctrl: cfg.tcxo.map(tcxo), use_dcdc: cfg.dcdc, rx_boost: cfg.boost },
+            );
+            drive(rk, &w, &specs, digest)
+        }};
+    }
+    macro_rules! with127 {
+        ($chip:expr) => {{
+            let rk = lora_phy::sx127x::Sx127x::new(
+                FakeSpi(w.clone()),
+                FakeIv(w.clone()),
+                lora_phy::sx127x::Config { chip: $chip, tcxo_used: cfg.tcxo_used, tx_boost: cfg.tx_boost, rx_boost: cfg.boost },
+            );
+            drive(rk, &w, &specs, digest)
+        }};
+    }
+    match cfg.variant {
+        Variant::Sx1261 => with126!(sx126x::Sx1261),
+        Variant::Sx1262 => with126!(sx126x::Sx1262),
+        Variant::WlHp => with126!(sx126x::Stm32wl { use_high_power_pa: true }),
+        Variant::WlLp => with126!(sx126x::Stm32wl { use_high_power_pa: false }),
+        Variant::Sx1276 => with127!(lora_phy::sx127x::Sx1276),
+        Variant::Sx1272 => with127!(lora_phy::sx127x::Sx1272),
+    }
+}
+
+fn parse_line(op: &str) -> Option<(bool, String, Vec<String>)> {
+    let rest = op.strip_prefix("C14 ")?;
+    let (digest, rest) = if let Some(r) = rest.strip_prefix("seq_digest ") {
+        (true, r)
+    } else if let Some(r) = rest.strip_prefix("seq ") {
+        (false, r)
+    } else {
+        return None;
+    };
+    let mut parts = rest.split(';').map(|s| s.trim().to_string());
+    let chip = parts.next()?;
+    Some((digest, chip, parts.collect()))
+}
+
+pub fn eval(op: &str) -> String {
+    let Some((digest, chip, calls)) = parse_line(op) else { return "bad-op".into() };
+    let cr: Vec<&str> = calls.iter().map(|s| s.as_str()).collect();
+    match run_seq(&chip, &cr, digest) {
+        Some(obs) => obs.iter().map(|o| o.line.clone()).collect::<Vec<_>>().join(" ; "),
+        None => "bad-op".into(),
+    }
+}
+
+pub fn expand(op: &str) -> Vec<String> {
+    match op.strip_prefix("C14 seq_digest ") {
+        Some(r) => vec![format!("C14 seq {}", r)],
+        None => vec![],
+    }
+}
+
+pub const ALPHABET: [&str; 16] =
+    ["init", "sleep:0", "sleep:1", "ptx", "tx", "prx:s", "prx:c", "prx:d", "srx", "crx", "rx", "rsc", "listen", "pcad", "cad", "sync:5156"];
+
+fn irq_scripts(is126: bool) -> Vec<Vec<u16>> {
+    if is126 {
+        // TxDone, RxDone, timeout, RxDone+CRC error, header error then timeout, spurious then default,
+        // two spurious, preamble then default, CadDone, CadDone+detected, header valid
+        vec![vec![0x0001], vec![0x0002], vec![0x0200], vec![0x0042], vec![0x0020, 0x0200], vec![0], vec![0, 0], vec![0x0004], vec![0x0080], vec![0x0180], vec![0x0010, 0x0002]]
+    } else {
+        vec![vec![0x08], vec![0x40], vec![0x80], vec![0x60], vec![0x10, 0x80], vec![0], vec![0, 0], vec![0x10], vec![0x04], vec![0x05], vec![0x20]]
+    }
+}
+
+fn plain(calls: &[&str]) -> Vec<String> {
+    calls.iter().map(|c| format!("{}@-@-@-", c)).collect()
+}
+
+fn line(kind: &str, chip: &str, calls: &[String]) -> String {
+    format!("C14 {} {} ; {}", kind, chip, calls.join(" ; "))
+}
+
+fn classify(ans: &str) -> String {
+    let last = ans.rsplit(" ; ").next().unwrap_or("");
+    let r = last.split(' ').next().unwrap_or("");
+    if r.starts_with("ok") {
+        "last-ok".into()
+    } else if r == "PANIC" || r == "DROPPED" {
+        format!("last-{}", r)
+    } else {
+        format!("last-{}", r.split('(').next().unwrap_or(r))
+    }
+}
+
+pub fn run(tier: &str, seed: u64, dir: &str) {
+    let mut rng = Rng::new(seed);
+    let mut sink = Sink::new(dir);
+    let thorough = tier == "thorough";
+    let depth = if thorough { 4 } else { 3 };
+    let chips: Vec<&str> = if thorough { vec!["1262/d", "1261/t1", "wlhp", "1276", "1272/x"] } else { vec!["1262/d", "1276"] };
+    for chip in &chips {
+        let is126 = is_126(parse_chip(chip).unwrap().variant);
+        // all sequences up to `depth`
+        let mut seqs: Vec<Vec<&str>> = vec![vec![]];
+        let mut frontier: Vec<Vec<&str>> = vec![vec![]];
+        for _ in 0..depth {
+            let mut next = vec![];
+            for s in &frontier {
+                for a in ALPHABET {
+                    let mut t = s.clone();
+                    t.push(a);
+                    next.push(t);
+                }
+            }
+            seqs.extend(next.iter().cloned());
+            frontier = next;
+        }
+        seqs.remove(0);
+        for s in &seqs {
+            let base = plain(s);
+            let Some(obs) = run_seq(chip, &base.iter().map(|x| x.as_str()).collect::<Vec<_>>(), true) else { continue };
+            let op = line("seq_digest", chip, &base);
+            let ans = obs.iter().map(|o| o.line.clone()).collect::<Vec<_>>().join(" ; ");
+            sink.case(&op, &ans, &format!("{}-plain-{}", if is126 { "sx126x" } else { "sx127x" }, classify(&ans)), true);
+            // depth-4 sequences (thorough): faults / drops / outcomes only on a seeded tenth
+            let full = s.len() <= 3 || rng.chance(1, 10);
+            if !full || obs.len() < s.len() {
+                continue;
+            }
+            // a fault at every I/O step of every call of the sequence; a drop at every await_irq
+            for (j, o) in obs.iter().enumerate() {
+                // faults in an earlier call only matter through the calls that follow: always done for the last
+                // two calls, for earlier ones on a seeded half
+                if j + 2 < obs.len() && rng.chance(1, 2) {
+                    continue;
+                }
+                for k in 0..o.steps {
+                    let mut v = base.clone();
+                    v[j] = format!("{}@-@{}@-", s[j], k);
+                    let op = line("seq_digest", chip, &v);
+                    let a = eval(&op);
+                    sink.case(&op, &a, &format!("{}-fault-{}", if is126 { "sx126x" } else { "sx127x" }, classify(&a)), true);
+                }
+                for &k in &o.irq_positions {
+                    let mut v = base.clone();
+                    v[j] = format!("{}@-@-@{}", s[j], k);
+                    let op = line("seq_digest", chip, &v);
+                    let a = eval(&op);
+                    sink.case(&op, &a, &format!("{}-drop-{}", if is126 { "sx126x" } else { "sx127x" }, classify(&a)), true);
+                }
+                if o.irq_reads > 0 {
+                    for sc in irq_scripts(is126) {
+                        let mut v = base.clone();
+                        v[j] = format!("{}@{}@-@-", s[j], sc.iter().map(|x| x.to_string()).collect::<Vec<_>>().join(","));
+                        let op = line("seq_digest", chip, &v);
+                        let a = eval(&op);
+                        sink.case(&op, &a, &format!("{}-irq-{}", if is126 { "sx126x" } else { "sx127x" }, classify(&a)), true);
+                        // an outcome combined with a fault in the error path it triggers
+                        if j + 1 == obs.len() {
+                            if let Some(ob2) = run_seq(chip, &v.iter().map(|x| x.as_str()).collect::<Vec<_>>(), true) {
+                                if let Some(l) = ob2.last() {
+                                    for k in 0..l.steps {
+                                        let mut v2 = v.clone();
+                                        v2[j] = format!("{}@{}@{}@-", s[j], sc.iter().map(|x| x.to_string()).collect::<Vec<_>>().join(","), k);
+                                        let op = line("seq_digest", chip, &v2);
+                                        let a = eval(&op);
+                                        sink.case(&op, &a, &format!("{}-irq+fault-{}", if is126 { "sx126x" } else { "sx127x" }, classify(&a)), true);
+                                    }
+                                }
+                            }
+                        }
+                    }
+                }
+            }
+        }
+        // a few verbose lines as readable samples
+        for s in [vec!["ptx", "tx"], vec!["prx:s", "rx"], vec!["sleep:0", "prx:d", "srx"], vec!["pcad", "cad"]] {
+            let op = line("seq", chip, &plain(&s));
+            let a = eval(&op);
+            sink.case(&op, &a, "verbose-sample", true);
+        }
+    }
+    sink.finish(
+        dir,
+        "every sequence of API calls up to the tier's depth (3 quick / 4 thorough) over the 16-call alphabet {init, sleep warm/cold, prepare_for_tx, tx, prepare_for_rx single/continuous/duty-cycle, start_rx, complete_rx, rx, rx_switch_channel, listen, prepare_for_cad, cad, set_lora_sync_word} on the real LoRa<Sx126x<Sx1262>> and LoRa<Sx127x<Sx1276>> (thorough: + Sx1261 with TCXO, Stm32wl, Sx1272) over the fake chips; for each sequence (depth 4: a seeded tenth): an I/O fault at every SPI / busy / IRQ / RF-switch / reset step of the calls, a future dropped at every await_irq, 11 chip interrupt outcomes (done, timeout, CRC error, header error, spurious, preamble first, CAD done/detected) on every call that reads the IRQ status, and every fault position inside the error path such an outcome triggers. Compared per call: result, the full I/O transcript (hashed in digest lines) and verif_state() = (radio_mode, cold_start, calibrate_image); the Lean side also evaluates I1-I5 on the run. Distinct = distinct op lines; every line is a concrete scenario.",
+        false,
+        serde_json::json!({"alphabet": ALPHABET, "depth": depth, "chips": chips}),
+    );
 }
